@@ -125,6 +125,7 @@ func init() {
 	regPrim("vsetNow", func(ex *Exec, fr *frame, a []Value) Value { ex.clock = a[0]; return nil })
 	regPrim("vgetNow", func(ex *Exec, fr *frame, a []Value) Value { return ex.clock })
 	regPrim("vyield", func(ex *Exec, fr *frame, a []Value) Value { ex.yieldPoint("vyield"); return nil })
+	regPrim("vjitter", func(ex *Exec, fr *frame, a []Value) Value { return nil })
 	regPrim("vquiesce", func(ex *Exec, fr *frame, a []Value) Value {
 		// let every other goroutine run until all are blocked and no timer is pending
 		me := ex.cur
